@@ -5,6 +5,7 @@ package main
 func init() {
 	commands["C01"] = func(o Opts) { runDBProfile(o, profC01, nil) }
 	commands["C03"] = func(o Opts) { runDBProfile(o, profC03, postC03) }
+	preRecords["C03"] = goldenRecords
 	commands["C06"] = func(o Opts) { runDBProfile(o, profC06, nil) }
 	commands["C09db"] = func(o Opts) { runDBProfile(o, profC09, nil) }
 	commands["C04db"] = func(o Opts) { runDBProfile(o, profC04, nil) }
